@@ -39,9 +39,9 @@ CHECKS = {
    note="Trusted: the reference interpreter (Appendix A of DESIGN.md) and the harness codec/evaluators. Programs beyond the size bounds and argument values not sampled are not covered. Executions touching a listed known finding are skipped and counted.",
    design="DESIGN.md section 2 / C01"),
  "C02": dict(
-   technique="reference-model runtime monitor on panic-heavy generated programs: panic flag, reason and start/end line of the reported location are compared with the first failing operation of the reference execution",
+   technique="reference-model runtime monitor on panic-heavy generated programs: panic flag, reason and start/end line and column of the reported location are compared with the first failing operation of the reference execution",
    text="Exploration: panic-heavy generated programs in token-per-line layout (every token on its own line, so the line span identifies the failing node), ~35% of the judged executions panic in the reference semantics, with failing operations in branches, arms, loops, callees, short-circuit operands and compound assignments; 4 configurations.",
-   note="Locations are compared by start/end line only (columns are not modelled). Where Rust-like evaluation order is under-determined (place vs. value of an assignment, struct literal field order) either first failure is accepted.",
+   note="Locations (start and end, line and column) are compared in the token-per-line layout, where they identify the failing node. Where Rust-like evaluation order is under-determined (place vs. value of an assignment, struct literal field order) either first failure is accepted.",
    design="DESIGN.md section 2 / C02"),
  "C14": dict(
    technique="reference-model runtime monitor on mutation-heavy generated programs whose main returns all live variables, so any unintended change of any variable is observable",
